@@ -7,7 +7,7 @@ from ..strlang import Obj, ListOf, Join, Slot, Lit, Alt, Cat
 
 META = {
     'design_ref': 'DESIGN.md §5 C13',
-    'technique': 'writer template of PkgRelation.str extracted by abstract interpretation and compared with __dep_RE by marked-language capture agreement; join/split agreement of the four separator levels decided on automata; parse_relations interpreted on symbolic strings (structural regex split, stubbed match objects) against the documented structure; frame rule (no memo in parse/format); the empty relationship list through writer and reader, both interpreted; delimiter searches on the text of one dependency against the characters its regex can match; frame rule also for mutable class-level objects handed out as results; PkgRelation.str interpreted on the documented plain pairs and on named tuples',
+    'technique': 'writer template of PkgRelation.str extracted by abstract interpretation and compared with __dep_RE by marked-language capture agreement; join/split agreement of the four separator levels decided on automata; parse_relations interpreted on symbolic strings (structural regex split, stubbed match objects) against the documented structure; frame rule (no memo in parse/format); the empty relationship list through writer and reader, both interpreted; delimiter searches on the text of one dependency against the characters its regex can match; frame rule also for mutable class-level objects handed out as results; PkgRelation.str interpreted on the documented plain pairs and on named tuples; parse_relations and str interpreted on relation fields put together from the grammar, two of them with 300 pieces; the language-level readings are a second opinion where reader or writer leave their vocabulary',
     'level_text': 'Static decision for all relation structures of the stated domain: every string str() can emit for one dependency is '
                   'matched by __dep_RE (no warning path) and every parse puts name, arch qualifier, operator, version, architecture '
                   'list and restriction formula on exactly the written parts; the separators written between the list levels are split '
